@@ -275,8 +275,44 @@ def colon_shared_designs():
                 yield f"colon-shared depth={depth} leaves={nleaf} names={also}", {"bundles": {}, "modules": copy.deepcopy(mods) + [top], "top": "Top"}
 
 
+def port_metadata_probe(rec):
+    """`has m's ports unchanged`: name, width, direction AND what does not reach the package - usage, description, properties,
+    related signals - on the ports of the module flatten() returns."""
+    import hdl21 as h
+    from hdl21.flatten import flatten as hflatten
+
+    rec.count("probe.port-metadata")
+    leaf = h.Module(name=f"PmLeaf{next(build._counter)}")
+    leaf.a, leaf.b = h.Input(), h.Output(width=2)
+    leaf.x = build.leaf_call("E2", 3)(x=leaf.b, y=leaf.a)
+    top = h.Module(name=f"PmTop{next(build._counter)}")
+    top.vdd = h.Power(desc="supply")
+    top.vss = h.Ground()
+    top.clk = h.Clock(direction=h.PortDir.INPUT)
+    top.d = h.Output(width=2, desc="data")
+    top.d.props.set("k", 5) if hasattr(top.d.props, "set") else None
+    top.d.related_clk = top.clk
+    top.w2 = h.Signal(width=2)
+    top.u = leaf(a=top.clk, b=top.d)
+    top.v = leaf(a=top.vdd, b=top.w2)
+    top.g = build.leaf_call("E1", 4)(a=top.vss, b=top.vdd)
+    want = {n: (p.width, p.direction, p.usage, p.desc, getattr(p.related_clk, "name", None)) for n, p in top.ports.items()}
+    try:
+        flat = hflatten(top)
+    except Exception as e:
+        rec.count("probe.port-metadata-rejected")
+        return
+    got = {n: (p.width, p.direction, p.usage, p.desc, getattr(p.related_clk, "name", None)) for n, p in flat.ports.items()}
+    if got != want:
+        diff = {n: (want.get(n), got.get(n)) for n in set(want) | set(got) if want.get(n) != got.get(n)}
+        rec.violation("flat-ports-changed", f"flatten() changed port attributes (width, direction, usage, desc, related clock): {diff}",
+                      case={"kind": "probe", "what": "port-metadata"})
+
+
 def run(ctx, rec):
     rng = ctx.rng("c16")
+    if ctx.shard == 0:
+        port_metadata_probe(rec)
     if ctx.shard == 0:
         for label, d in colon_shared_designs():
             rec.count("colon-shared.designs")
